@@ -15,7 +15,7 @@ PY
 [ $? -eq 0 ] || { git -C /repo worktree remove --force $WT; exit 3; }
 git -C $WT diff | grep -E '^[-+][^-+]' | head -8
 for c in "$@"; do
-  out=$(cd /verif && VERIF_REPO=$WT VERIF_EVIDENCE_DIR=/tmp/st/ev.mut.$$ ./check $c 2>&1); r=$?
+  out=$(cd ${VERIF_HOME:-/verif} && VERIF_REPO=$WT VERIF_EVIDENCE_DIR=/tmp/st/ev.mut.$$ ./check $c 2>&1); r=$?
   echo "--- check $c exit=$r"; echo "$out" | grep -E "VIOLATION|UNDECIDED|key=|^  [a-zA-Z]|obligations" | grep -v "rule=" | head -8
 done
 git -C /repo worktree remove --force $WT; rm -rf /tmp/st/ev.mut.$$
